@@ -62,6 +62,8 @@ def main():
     ap.add_argument("--tier", default="quick")
     ap.add_argument("--budget", type=float)
     ap.add_argument("--only")
+    ap.add_argument("--no-escalate", action="store_true")
+    ap.add_argument("--escalate-budget", type=float, default=120.0)
     ap.add_argument("--no-write", action="store_true")
     a = ap.parse_args()
     items = []
@@ -80,6 +82,14 @@ def main():
         if a.only and a.only not in name:
             continue
         res = run_mutant(prop, patch, a.tier, a.budget)
+        res["tier"] = a.tier
+        if res["status"] == "MISSED" and a.tier == "quick" and not a.no_escalate:
+            # not caught by the check one runs on every change: try the deep one, bounded
+            res2 = run_mutant(prop, patch, "thorough", a.escalate_budget)
+            if res2["status"] == "caught":
+                res2["status"] = "caught"
+                res2["tier"] = f"thorough ({a.escalate_budget:.0f} s budget); missed by quick"
+                res = res2
         rows.append((prop, name, res))
         print(prop, name, json.dumps(res), flush=True)
     if not a.no_write and not a.props and not a.only:
@@ -87,9 +97,9 @@ def main():
             f.write("# Sensitivity: which check catches which change\n\n")
             f.write(f"Tier: {a.tier}.  Each change is applied to a scratch copy of the library (UPSIM_REPO), the\n"
                     "check of its property is run, and the replay it reports is re-run on the unchanged tree (must pass).\n\n")
-            f.write("| property | change | result | oracle(s) | ops in minimised replay | wall s |\n|---|---|---|---|---|---|\n")
+            f.write("| property | change | result | tier | oracle(s) | ops in minimised replay | wall s |\n|---|---|---|---|---|---|---|\n")
             for prop, name, res in rows:
-                f.write(f"| {prop} | {name} | {res['status']} | {', '.join(res.get('oracles', []))} | "
+                f.write(f"| {prop} | {name} | {res['status']} | {res.get('tier', '')} | {', '.join(res.get('oracles', []))} | "
                         f"{res.get('min_ops', '')} | {res.get('wall_s', '')} |\n")
     bad = [r for r in rows if r[2]["status"] != "caught"]
     return 1 if bad else 0
